@@ -2,36 +2,31 @@
 C12 — Reforming calendars exist for exactly the documented reformation days.
 -/
 import JulianVerif.Model.Cli
+import JulianVerif.Lemmas.Accepts
 namespace JV.C12
-open JV
+open JV Spec
 
-/-- the hand-typed `REFORM1582` literal is the calendar `reforming(2299161)` computes —
-field for field, including the private gap record -/
-theorem reform1582_eq : Calendar.mkReforming 2299161 = .ok Calendar.reform1582 := by rfl
+/-- **constructing a reforming calendar succeeds exactly for reformation days 1830692
+through 2147439588; earlier days are rejected as not skipping forward and later ones as
+arithmetic overflow** — all 2^32 candidates -/
+theorem reforming_accepts (r : Int) (hr : InI32 r) :
+    (r < 1830692 → Calendar.mkReforming r = .error .invalidReformation)
+    ∧ (1830692 ≤ r → r ≤ 2147439588 → ∃ c, Calendar.mkReforming r = .ok c)
+    ∧ (2147439588 < r → Calendar.mkReforming r = .error .arithmetic) :=
+  mkReforming_cases r hr
 
-/-- the four documented boundary values -/
-theorem boundary_values :
-    Calendar.mkReforming 1830691 = .error .invalidReformation
-    ∧ (∃ c, Calendar.mkReforming 1830692 = .ok c)
-    ∧ (∃ c, Calendar.mkReforming 2147439588 = .ok c)
-    ∧ Calendar.mkReforming 2147439589 = .error .arithmetic
-    ∧ Calendar.mkReforming (-2147483648) = .error .invalidReformation
-    ∧ Calendar.mkReforming (-2147483647) = .error .invalidReformation := by
-  refine ⟨rfl, ⟨_, rfl⟩, ⟨_, rfl⟩, rfl, rfl, rfl⟩
-
-/-- a constructed calendar reports the day it was built from, is reforming, not proleptic -/
-theorem reformation_roundtrip (r : Int) (c : Calendar) (h : Calendar.mkReforming r = .ok c) :
+/-- the calendar reports the reformation day it was built from, is reforming and not
+proleptic -/
+theorem reformation_roundtrip (r : Int) (hr : InI32 r) (c : Calendar) (h : Calendar.mkReforming r = .ok c) :
     c.reformation = some r ∧ c.isReforming = true ∧ c.isProleptic = false := by
-  simp only [Calendar.mkReforming] at h
-  split at h
-  · cases h
-  · split at h
-    · split at h
-      · split at h <;> cases h
-      · split at h
-        · cases h
-        · cases h; exact ⟨rfl, rfl, rfl⟩
-    · cases h
+  obtain ⟨rf, rfl, e, _⟩ := mk_reform r hr c h
+  subst e
+  exact ⟨rfl, rfl, rfl⟩
+
+/-- **the built-in 1582 calendar is the calendar constructed for day 2299161** — field for
+field, including the private gap record, so it is indistinguishable in every observable
+respect -/
+theorem reform1582_eq : Calendar.mkReforming 2299161 = .ok Calendar.reform1582 := by rfl
 
 /-- every ncal country constant (as listed in the CLI table) is an accepted reformation -/
 theorem ncal_valid : ∀ e ∈ Cli.nationalReformations, ∃ c, Calendar.mkReforming e.2.2 = .ok c := by
@@ -41,13 +36,27 @@ theorem ncal_valid : ∀ e ∈ Cli.nationalReformations, ∃ c, Calendar.mkRefor
     | rfl | rfl | rfl | rfl | rfl | rfl | rfl | rfl | rfl | rfl | rfl | rfl | rfl | rfl | rfl | rfl
     | rfl | rfl | rfl | rfl <;> exact ⟨_, rfl⟩
 
-/-- witnesses at the two thresholds: a wholly skipped month first exists at 3145930
-(February 3901), a wholly skipped year first at 19582149 -/
+/-- **months are wholly skipped only for reformations from 3145930 on** -/
+theorem skipped_month_threshold (r : Int) (hr : InI32 r) (c : Calendar)
+    (h : Calendar.mkReforming r = .ok c) (y : Int) (m : Month) (hs : c.monthIShape y m = none) :
+    3145930 ≤ r := by
+  obtain ⟨rf, rfl, e, _⟩ := mk_reform r hr c h
+  subst e
+  exact rf.skipped_month_threshold y m hs
+
+/-- **whole years are skipped only for reformations from 19582149 on** -/
+theorem skipped_year_threshold (r : Int) (hr : InI32 r) (c : Calendar)
+    (h : Calendar.mkReforming r = .ok c) (y : Int) (hs : c.yearKind y = .skipped) :
+    19582149 ≤ r := by
+  obtain ⟨rf, rfl, e, _⟩ := mk_reform r hr c h
+  subst e
+  exact rf.skipped_year_threshold y hs
+
+/-- the thresholds are attained: February 3901 is wholly skipped at 3145930 and year 48901
+at 19582149 -/
 theorem threshold_witnesses :
     (∃ c, Calendar.mkReforming 3145930 = .ok c ∧ c.monthIShape 3901 .february = none)
-    ∧ (∃ c, Calendar.mkReforming 3145929 = .ok c ∧ (∀ m, (c.monthIShape 3901 m).isSome = true))
-    ∧ (∃ c y, Calendar.mkReforming 19582149 = .ok c ∧ c.yearKind y = .skipped) := by
-  refine ⟨⟨_, rfl, rfl⟩, ⟨_, rfl, ?_⟩, ⟨_, 48901, rfl, rfl⟩⟩
-  intro m; cases m <;> rfl
+    ∧ (∃ c, Calendar.mkReforming 19582149 = .ok c ∧ c.yearKind 48901 = .skipped) :=
+  ⟨⟨_, rfl, rfl⟩, ⟨_, rfl, rfl⟩⟩
 
 end JV.C12
